@@ -12,7 +12,8 @@ use vcore::{CaseInfo, Failure, Part, SubCheck};
 
 #[derive(Clone, Debug, Serialize, Deserialize)]
 pub struct Stall {
-    /// 0 http, 1 socks5, 2 socks4, 3 socks5 with userpass on the auth listener
+    /// 0 http, 1 socks5, 2 socks4, 3 socks5 with userpass on the auth listener (a client that goes silent inside the handshake);
+    /// 4 http, 5 socks5, 6 socks4, 7 quic: a request routed to a connector whose upstream goes silent inside *its* handshake
     pub kind: u8,
     /// selector for the number of handshake bytes sent before going silent
     pub at: u16,
@@ -30,7 +31,7 @@ pub struct Case {
 
 pub fn case_strategy() -> impl Strategy<Value = Case> {
     (
-        prop::collection::vec((0u8..4, any::<u16>()).prop_map(|(kind, at)| Stall { kind, at }), 0..10),
+        prop::collection::vec((prop_oneof![3 => 0u8..4, 2 => 4u8..8], any::<u16>()).prop_map(|(kind, at)| Stall { kind, at }), 0..10),
         0u8..3,
         prop::collection::vec(0u8..7, 1..8),
         1u8..3,
@@ -53,7 +54,13 @@ struct Fx {
     origin: Origin,
     sink: std::net::SocketAddr,
     _sink_task: tokio::task::JoinHandle<()>,
+    /// how many bytes of its reply the next silent upstream connection sends before it goes quiet
+    up_at: std::sync::Arc<std::sync::atomic::AtomicU32>,
+    _up_tasks: Vec<tokio::task::JoinHandle<()>>,
+    _qep: quinn::Endpoint,
 }
+
+const UP_REPLIES: [&[u8]; 3] = [b"HTTP/1.1 200 OK\r\nSession-Id: 1\r\n\r\n", &[5, 0, 5, 0, 0, 1, 0, 0, 0, 0, 0, 0], &[0, 90, 0, 0, 0, 0, 0, 0]];
 
 async fn fixture() -> Result<Fx, String> {
     let (http, socks, socks_auth, reverse, api) = (free_port(), free_port(), free_port(), free_port(), free_port());
@@ -70,6 +77,45 @@ async fn fixture() -> Result<Fx, String> {
             }
         }
     });
+    // upstreams that accept, read, send a prefix of a valid reply and then stay silent
+    let up_at = std::sync::Arc::new(std::sync::atomic::AtomicU32::new(0));
+    let mut up_tasks = vec![];
+    let mut up_ports = vec![];
+    for k in 0..3usize {
+        let l = tokio::net::TcpListener::bind("127.0.0.1:0").await.map_err(|e| e.to_string())?;
+        up_ports.push(l.local_addr().unwrap().port());
+        let at = up_at.clone();
+        up_tasks.push(tokio::spawn(async move {
+            let mut held = vec![];
+            loop {
+                if let Ok((mut s, _)) = l.accept().await {
+                    let n = at.load(std::sync::atomic::Ordering::SeqCst) as usize;
+                    let mut b = [0u8; 512];
+                    let _ = tokio::time::timeout(Duration::from_millis(50), s.read(&mut b)).await;
+                    let reply = UP_REPLIES[k];
+                    let cut = (n * (reply.len())) >> 16; // never the complete reply
+                    let _ = s.write_all(&reply[..cut]).await;
+                    held.push(s);
+                }
+            }
+        }));
+    }
+    let (qep, qport) = crate::tlsutil::quic_server("server");
+    let qep2 = qep.clone();
+    up_tasks.push(tokio::spawn(async move {
+        let mut held = vec![];
+        while let Some(c) = qep2.accept().await {
+            if let Ok(conn) = c.await {
+                let c2 = conn.clone();
+                held.push(tokio::spawn(async move {
+                    let mut streams = vec![];
+                    while let Ok(x) = c2.accept_bi().await {
+                        streams.push(x); // accepted, never answered
+                    }
+                }));
+            }
+        }
+    }));
     let yaml = format!(
         r#"apiVersion: v1
 kind: test
@@ -91,7 +137,35 @@ listeners:
     target: {origin}
 connectors:
   - name: direct
+  - name: uphttp
+    type: http
+    server: 127.0.0.1
+    port: {up0}
+  - name: upsocks5
+    type: socks
+    server: 127.0.0.1
+    port: {up1}
+  - name: upsocks4
+    type: socks
+    version: 4
+    server: 127.0.0.1
+    port: {up2}
+  - name: upquic
+    type: quic
+    server: localhost
+    port: {qport}
+    bind: "127.0.0.1:0"
+    tls:
+      ca: /verif/pki/ca.crt
 rules:
+  - filter: request.target.port == 1
+    target: uphttp
+  - filter: request.target.port == 2
+    target: upsocks5
+  - filter: request.target.port == 3
+    target: upsocks4
+  - filter: request.target.port == 4
+    target: upquic
   - target: direct
 metrics:
   bind: 127.0.0.1:{api}
@@ -108,7 +182,11 @@ ioParams:
         socks_auth = socks_auth,
         reverse = reverse,
         origin = origin.addr,
-        api = api
+        api = api,
+        up0 = up_ports[0],
+        up1 = up_ports[1],
+        up2 = up_ports[2],
+        qport = qport
     );
     let proxy = tokio::task::spawn_blocking(move || Proxy::start("c14", &yaml, &[http, socks, socks_auth, reverse, api], Some(api))).await.map_err(|e| e.to_string())??;
     Ok(Fx {
@@ -121,6 +199,9 @@ ioParams:
         origin,
         sink,
         _sink_task: sink_task,
+        up_at,
+        _up_tasks: up_tasks,
+        _qep: qep,
     })
 }
 
@@ -147,7 +228,15 @@ async fn api_call(port: u16, which: u8, dur: Duration) -> Result<(), String> {
         3 => api(port, "GET", "/api/rules", None, dur).await.map(|_| ()),
         4 => api(port, "GET", "/api/metrics", None, dur).await.map(|_| ()),
         5 => {
-            let body = serde_json::to_vec(&json!([{"target": "direct"}])).unwrap();
+            // the same list the configuration installs (the stalled-upstream routes must survive the POST)
+            let body = serde_json::to_vec(&json!([
+                {"filter": "request.target.port == 1", "target": "uphttp"},
+                {"filter": "request.target.port == 2", "target": "upsocks5"},
+                {"filter": "request.target.port == 3", "target": "upsocks4"},
+                {"filter": "request.target.port == 4", "target": "upquic"},
+                {"target": "direct"}
+            ]))
+            .unwrap();
             let r = api(port, "POST", "/api/rules", Some(&body), dur).await?;
             if r.status / 100 == 2 {
                 Ok(())
@@ -215,6 +304,22 @@ pub async fn run_case(c: &Case) -> Result<(bool, serde_json::Value), Failure> {
     let mut inside = false;
     let mut stall_desc = vec![];
     for st in &c.stalls {
+        if st.kind % 8 >= 4 {
+            // a request whose upstream goes silent inside the connector's handshake
+            let via = (st.kind % 8 - 4) as usize;
+            fx.up_at.store(st.at as u32, std::sync::atomic::Ordering::SeqCst);
+            if let Ok(mut s) = TcpStream::connect(lo(fx.http)).await {
+                let t = format!("127.0.0.1:{}", via + 1).into_bytes();
+                let _ = s.write_all(&rc::encode_connect(&t, &[(b"Host".to_vec(), t.clone())])).await;
+                // let the proxy reach the upstream before the next stall changes the cut
+                tokio::time::sleep(Duration::from_millis(120)).await;
+                inside = true;
+                let cut = if via < 3 { (st.at as usize * UP_REPLIES[via].len()) >> 16 } else { 0 };
+                stall_desc.push(format!("upstream-{}-silent-after-{}B", ["http", "socks5", "socks4", "quic"][via], cut));
+                held.push(s);
+            }
+            continue;
+        }
         let bytes = handshake_bytes(st.kind, fx.origin.addr);
         let k = ((st.at as usize) * (bytes.len() + 1)) >> 16;
         let port = match st.kind % 4 {
@@ -285,7 +390,7 @@ pub async fn run_case(c: &Case) -> Result<(bool, serde_json::Value), Failure> {
     let shape = if c.stalls.is_empty() && c.blocked_tunnels == 0 {
         "no-stall".to_string()
     } else {
-        let mut kinds: Vec<&str> = c.stalls.iter().map(|s| ["http", "socks5", "socks4", "socks5-auth"][(s.kind % 4) as usize]).collect();
+        let mut kinds: Vec<&str> = c.stalls.iter().map(|s| ["http", "socks5", "socks4", "socks5-auth", "upstream-http", "upstream-socks5", "upstream-socks4", "upstream-quic"][(s.kind % 8) as usize]).collect();
         if c.blocked_tunnels > 0 {
             kinds.push("blocked-tunnel");
         }
@@ -338,7 +443,7 @@ impl SubCheck for StallCheck {
         "stalls"
     }
     fn rule(&self) -> String {
-        "generated schedules, each on a fresh real proxy: 0-9 clients stalled after k bytes of a valid handshake (HTTP CONNECT head, SOCKS5 greeting+request, SOCKS4 request, SOCKS5 with userpass; k drawn over every offset 0..len), 0-2 established tunnels whose far consumer never reads (filled until the writer blocks), then 1-7 API calls (status, live, history, rules GET, metrics, rules POST, logrotate) issued concurrently with fresh echo tunnels through the http, socks5, socks4 and reverse listeners; oracle: every API call and every fresh tunnel completes within 6 s (the same calls take < 1.5 s in total in the control phase before the stall set; a slower control makes the case inconclusive); non-trivial = some stall strictly inside a handshake message and at least one concurrent API call".into()
+        "generated schedules, each on a fresh real proxy: 0-9 clients stalled after k bytes of a valid handshake (HTTP CONNECT head, SOCKS5 greeting+request, SOCKS4 request, SOCKS5 with userpass; k drawn over every offset 0..len) or requests routed to an http / socks5 / socks4 / quic connector whose upstream accepts, sends a generated strict prefix of a valid reply (0..len-1 bytes) and goes silent, 0-2 established tunnels whose far consumer never reads (filled until the writer blocks), then 1-7 API calls (status, live, history, rules GET, metrics, rules POST, logrotate) issued concurrently with fresh echo tunnels through the http, socks5, socks4 and reverse listeners; oracle: every API call and every fresh tunnel completes within 6 s (the same calls take < 1.5 s in total in the control phase before the stall set; a slower control makes the case inconclusive); non-trivial = some stall strictly inside a handshake message and at least one concurrent API call".into()
     }
     fn run(&self, part: &mut Part) {
         let n = part.tier.pick(40, 600) as usize;
